@@ -62,6 +62,15 @@ type Prop struct {
 	Units func(thorough bool) []*explore.Unit
 	// Direct runs directly enumerated cases (no scheduler); may be nil.
 	Direct func(c *Ctx)
+	// Race lists free-running bodies for the separate -race pass (sampling; the
+	// cooperative scheduler's hand-offs would hide data races from the detector).
+	Race func() []RaceBody
+}
+
+// RaceBody is one free-running scenario; Run returns a functional error, if any.
+type RaceBody struct {
+	Name string
+	Run  func(iter int) error
 }
 
 // UnitsByName finds explorer units by exact name in either tier.
